@@ -314,6 +314,12 @@ func genBackends(emit func(Case)) {
 		"{ .backend = b1; .weight = 0; } { .backend = b2; .weight = 3; } { .backend = b3; .weight = 1; }",
 		"{ .backend = b1; .id = \"one\"; } { .backend = b2; .id = \"two\"; }",
 		"{ .backend = b1; }",
+		// weights around and beyond 1000 in total
+		"{ .backend = b1; .weight = 1000; }",
+		"{ .backend = b1; .weight = 1001; }",
+		"{ .backend = b1; .weight = 600; } { .backend = b2; .weight = 600; }",
+		"{ .backend = b1; .weight = 999; } { .backend = b2; .weight = 1; } { .backend = b3; .weight = 1; }",
+		"{ .backend = b1; .weight = 100000; }",
 	}
 	props := []string{"", ".quorum = 0%;", ".quorum = 50%;", ".quorum = 100%;", ".retries = 0;", ".retries = 5;", ".key = object; .seed = 1; .vnodes_per_node = 1;", ".key = client;"}
 	selects := []struct{ name, recv, later string }{
@@ -429,8 +435,67 @@ func genTester(emit func(Case)) {
 	}
 }
 
+// genConcat: string concatenations whose terms carry a sign or a prefix operator, in every position and for every
+// operand type, in each context that evaluates a concatenation (type errors are fine, crashes are not)
+func genConcat(emit func(Case)) {
+	decl := "  declare local var.R RTIME;\n  declare local var.I INTEGER;\n  declare local var.F FLOAT;\n  declare local var.B BOOL;\n  declare local var.S STRING;\n  declare local var.N STRING;\n  declare local var.T TIME;\n  declare local var.P IP;\n" +
+		"  set var.R = 5s;\n  set var.I = 3;\n  set var.F = 1.5;\n  set var.B = true;\n  set var.S = \"s\";\n  set var.T = now;\n  set var.P = \"10.0.0.1\";\n"
+	atoms := []string{"var.R", "var.I", "var.F", "var.B", "var.S", "var.N", "var.T", "var.P", "req.max_stale_if_error", "now", "client.ip", "req.http.Never-Set", "5", "1.5", "5s", `"s"`, "std.strlen(var.S)", "(var.I)"}
+	signs := []string{"", "-", "+", "!"}
+	rests := []string{"", ` "s"`, " var.I", " -var.I", " + 5s", " - var.R", ` "a" var.R`, " + var.S", ` "a" -var.R "b"`}
+	ctxs := []struct{ name, stmt string }{
+		{"set-header", "set req.http.X = %s;"}, {"set-local", "set var.S = %s;"}, {"log", "log %s;"}, {"declare-init", "declare local var.Z STRING = %s;"},
+		{"argument", "set var.I = std.strlen(%s);"}, {"append", "set req.http.X += %s;"}, {"condition", "if (%s) { esi; }"},
+	}
+	for _, cx := range ctxs {
+		for _, sg := range signs {
+			for _, a := range atoms {
+				for _, r := range rests {
+					if sg == "" && r == "" {
+						continue
+					}
+					e := sg + a + r
+					emit(Case{Kind: "probe", Main: helpers, Scope: "recv", Label: "concat " + cx.name + " sign:" + sg,
+						Probe: "sub probe {\n" + decl + "  " + fmt.Sprintf(cx.stmt, e) + "\n}\n"})
+				}
+			}
+		}
+	}
+}
+
+// genCrypto: the symmetric cipher built-ins with well-formed keys and IVs (the generic function family only reaches their
+// argument validation): every cipher x mode x padding x text length around the block size, for each of the four functions
+func genCrypto(emit func(Case)) {
+	hexOf := func(n int) string { return strings.Repeat("0123456789abcdef", 8)[:n] }
+	keys := map[string]int{"aes128": 32, "aes192": 48, "aes256": 64}
+	ivs := map[string]int{"cbc": 32, "ctr": 32, "gcm": 24, "ccm": 14}
+	hexTexts := []string{"", "a", "aa", "aabbccddee", hexOf(30), hexOf(32), hexOf(34), hexOf(64), "zz"}
+	b64Texts := []string{"", "YQ==", "YWJjZGVmZ2hpamtsbW5vcA==", "YWJjZGVmZ2hpamtsbW5vcHE=", "!", "YWJjZGVmZ2hpamtsbW5vcGFiY2RlZmdoaWprbG1ub3A="}
+	for _, fn := range []string{"crypto.encrypt_hex", "crypto.decrypt_hex", "crypto.encrypt_base64", "crypto.decrypt_base64"} {
+		texts := hexTexts
+		if strings.HasSuffix(fn, "base64") {
+			texts = b64Texts
+		}
+		for _, ci := range []string{"aes128", "aes192", "aes256"} {
+			for _, mode := range []string{"cbc", "ctr", "gcm", "ccm"} {
+				for _, pad := range []string{"nopad", "pkcs7"} {
+					for _, ivLen := range []int{ivs[mode], ivs[mode] - 2} {
+						for _, tx := range texts {
+							call := fmt.Sprintf("%s(%s, %s, %s, \"%s\", \"%s\", \"%s\")", fn, ci, mode, pad, hexOf(keys[ci]), hexOf(ivLen), tx)
+							emit(Case{Kind: "probe", Main: helpers, Scope: "recv", Label: "crypto " + fn + " " + mode + " " + pad,
+								Probe: fmt.Sprintf("sub probe {\n  set req.http.R = %s;\n  log req.http.R;\n  log fastly.error;\n}\n", call)})
+						}
+					}
+				}
+			}
+		}
+	}
+}
+
 func gen08(tier string, emit func(Case)) {
 	genAssign(emit)
+	genCrypto(emit)
+	genConcat(emit)
 	genFunctions(tier, emit)
 	genStatements(emit)
 	genRecursion(emit)
